@@ -430,7 +430,7 @@ fn new_session(rng: &mut Rng, kind: &'static str, npeers: usize, steps: usize, c
     // messages, the reset of last_sent_heads / sent_hashes on empty heads)
     if rng.chance(1, 5) {
         let p = rng.below(docs.len() as u64) as usize;
-        docs[p] = AutoCommit::new_with_encoding(automerge::TextEncoding::UnicodeCodePoint).with_actor(gen::actor(rng, 8 + p));
+        docs[p] = AutoCommit::new_with_encoding(automerge::TextEncoding::UnicodeCodePoint).with_actor(automerge::ActorId::from(vec![rng.next() as u8, 0xEE, p as u8, 0x01]));
     }
     let mut orphan_src: Vec<Vec<ChangeHash>> = vec![vec![]; docs.len()];
     // some peers hold an orphan: a change of another peer whose dependencies they lack
@@ -491,8 +491,40 @@ fn component_of(links: &[Link], n: usize) -> Vec<usize> {
     }
 }
 
+/// Observation outside the three properties' assumptions (counted, never a failure): B (empty document) has
+/// already spoken on its state and that message is LOST; A holds a change, starts from State::new_read_only()
+/// and is switched to read-write before it has heard from B (no capabilities known), so its reset is the
+/// "empty heads" form.  B then believes A is empty like itself and stays silent, A waits for an answer.
+fn probe_lost_message_then_switch(rep: &mut Report) {
+    let r = guard(|| {
+        let mut a = AutoCommit::new().with_actor(automerge::ActorId::from(vec![1u8, 2, 3]));
+        a.put(ROOT, "k", 1).unwrap();
+        a.commit();
+        let mut b = AutoCommit::new().with_actor(automerge::ActorId::from(vec![4u8, 5, 6]));
+        let mut sb = State::new();
+        let _lost = b.sync().generate_sync_message(&mut sb);
+        let mut sa = State::new_read_only();
+        sa.set_read_only(false);
+        let m = a.sync().generate_sync_message(&mut sa).expect("first message");
+        let announced_empty = m.heads.is_empty();
+        b.sync().receive_sync_message(&mut sb, m).unwrap();
+        let gb = b.sync().generate_sync_message(&mut sb);
+        let ga = a.sync().generate_sync_message(&mut sa);
+        (announced_empty, gb.is_none() && ga.is_none() && a.get_heads() != b.get_heads())
+    });
+    if let Ok((announced_empty, stuck)) = r {
+        if announced_empty {
+            rep.count("probe_switch_without_capabilities_announces_empty_heads");
+        }
+        if stuck {
+            rep.count("probe_lost_first_message_then_switch_both_silent_heads_differ");
+        }
+    }
+}
+
 pub fn run(rng: &mut Rng, tier: &str, out: &str) -> Report {
     let mut rep = Report::new("sync");
+    probe_lost_message_then_switch(&mut rep);
     let mut cw = CaseWriter::new(out, "sync", HEADER, 1);
     let thorough = tier == "thorough";
     let n_sessions = if thorough { 1500 } else { 330 };
@@ -596,7 +628,8 @@ pub fn run(rng: &mut Rng, tier: &str, out: &str) -> Report {
                                 s.drop_link(l);
                             }
                         }
-                        s.docs[p] = AutoCommit::new_with_encoding(automerge::TextEncoding::UnicodeCodePoint).with_actor(gen::actor(rng, 12 + (t % 3)));
+                        // a fresh actor id, distinct from every other actor of the session (the restarted peer is a new replica)
+                        s.docs[p] = AutoCommit::new_with_encoding(automerge::TextEncoding::UnicodeCodePoint).with_actor(automerge::ActorId::from(vec![rng.next() as u8, 0xED, p as u8, crashes as u8, (t & 0xff) as u8]));
                         s.steps.push(format!("SLoseDoc {}", p));
                         s.log.push(format!("peer {} loses its document", p));
                         crashes += 1;
